@@ -10,20 +10,20 @@ Open Scope N_scope.
    last one included), one more reconciliation without fault - the retry scheduled by the
    reconciler, whose batch may be empty, or the next event - reports success and leaves the
    files, and the haproxy reloaded by the update, exactly those of the current state. *)
-Theorem retry_converges : forall e dn, shard_range e ->
-  forall h, wf_hist e dn inst_empty h ->
-  forall l, wf_batch e dn (i_cfg (run_f e inst_empty h)) l ->
+Theorem retry_converges : forall e, shard_range e ->
+  forall h, wf_hist e inst_empty h ->
+  forall l, wf_batch e (i_cfg (run_f e inst_empty h)) l ->
     let r := step_f e [] (run_f e inst_empty h) l in
     snd r = false /\ i_failed (fst r) = false /\
     disk_ok e (i_cfg (fst r)) (i_disk (fst r)) /\
     (inline e = true -> exists run, i_running (fst r) = Some run /\ disk_ok e (i_cfg (fst r)) run).
 Proof.
-  intros e dn SR h W l Wl r.
+  intros e SR h W l Wl r.
   assert (E : snd r = false) by (unfold r, step_f; apply update_nofault_ok).
   split; auto.
   assert (U : step_f e [] (run_f e inst_empty h) l = (fst r, false)).
   { unfold r in *. destruct (step_f e [] (run_f e inst_empty h) l) as [s' err]. cbn in *. subst. reflexivity. }
-  apply (success_is_convergence e dn SR h W l [] (fst r) Wl eq_refl U).
+  apply (success_is_convergence e SR h W l [] (fst r) Wl eq_refl U).
 Qed.
 
 (* ================================================================ the reload queue *)
@@ -62,17 +62,17 @@ Qed.
 
 (* with the reload queue: a successful update that asked for a reload, then the queue firing
    until one reload succeeds: the running haproxy has loaded the files of the current state *)
-Theorem retry_converges_reload_queue : forall e dn, shard_range e -> inline e = false ->
-  forall h, wf_hist e dn inst_empty h ->
-  forall l fs s', wf_batch e dn (i_cfg (run_f e inst_empty h)) l -> armed fs FReloadSilent = false ->
+Theorem retry_converges_reload_queue : forall e, shard_range e -> inline e = false ->
+  forall h, wf_hist e inst_empty h ->
+  forall l fs s', wf_batch e (i_cfg (run_f e inst_empty h)) l -> armed fs FReloadSilent = false ->
     step_f e fs (run_f e inst_empty h) l = (s', false) ->
   forall results, i_pending s' = true -> In true results ->
     let s'' := reload_attempts results s' in
     exists run, i_running s'' = Some run /\ disk_ok e (i_cfg s'') run /\ disk_ok e (i_cfg s'') (i_disk s'') /\
                 i_pending s'' = false.
 Proof.
-  intros e dn SR Q h W l fs s' Wl NS U results P I s''.
-  destruct (success_is_convergence e dn SR h W l fs s' Wl NS U) as [_ [D _]].
+  intros e SR Q h W l fs s' Wl NS U results P I s''.
+  destruct (success_is_convergence e SR h W l fs s' Wl NS U) as [_ [D _]].
   destruct (reload_queue_retries results s' P I) as [R [Pn [C Dk]]].
   exists (i_disk s'). unfold s''. rewrite C, Dk. auto.
 Qed.
@@ -93,29 +93,29 @@ Proof. intros e s l. exact (step_nofault e s l). Qed.
    shards beyond a smaller --backend-shards.  Its first reconciliation is a full sync, and
    the first configuration it writes removes the backend files it did not write: whatever
    the directory held, the reconciliations that follow converge like any other. *)
-Lemma restart_reach : forall e dn s, reach e dn (restart s).
-Proof. intros e dn s. apply (reach_new e dn (i_disk s) (i_running s)). Qed.
+Lemma restart_reach : forall e s, reach e (restart s).
+Proof. intros e s. apply (reach_new e (i_disk s) (i_running s)). Qed.
 
-Theorem restart_converges : forall e dn, shard_range e ->
-  forall s l fs s', wf_batch e dn (i_cfg (restart s)) l -> armed fs FReloadSilent = false ->
+Theorem restart_converges : forall e, shard_range e ->
+  forall s l fs s', wf_batch e (i_cfg (restart s)) l -> armed fs FReloadSilent = false ->
     step_f e fs (restart s) l = (s', false) ->
     disk_ok e (i_cfg s') (i_disk s') /\
     (inline e = true -> exists r, i_running s' = Some r /\ disk_ok e (i_cfg s') r).
 Proof.
-  intros e dn SR s l fs s' W NS U.
-  assert (G : good e dn s') by (apply (update_good e dn fs (restart s) l); auto; apply restart_reach).
-  split; [apply (good_disk_ok e dn); auto|apply (good_running_ok e dn); auto].
+  intros e SR s l fs s' W NS U.
+  assert (G : good e s') by (apply (update_good e fs (restart s) l); auto; apply restart_reach).
+  split; [apply (good_disk_ok e); auto|apply (good_running_ok e); auto].
 Qed.
 (* ... and so do the histories that follow a restart, faults included *)
-Theorem restart_then_history : forall e dn, shard_range e ->
-  forall s h, wf_hist e dn (restart s) h ->
-  forall l fs s', wf_batch e dn (i_cfg (run_f e (restart s) h)) l -> armed fs FReloadSilent = false ->
+Theorem restart_then_history : forall e, shard_range e ->
+  forall s h, wf_hist e (restart s) h ->
+  forall l fs s', wf_batch e (i_cfg (run_f e (restart s) h)) l -> armed fs FReloadSilent = false ->
     step_f e fs (run_f e (restart s) h) l = (s', false) ->
     disk_ok e (i_cfg s') (i_disk s').
 Proof.
-  intros e dn SR s h W l fs s' Wl NS U.
-  assert (R : reach e dn (run_f e (restart s) h)) by (apply reach_hist; auto using restart_reach).
-  apply (good_disk_ok e dn); auto. apply (update_good e dn fs (run_f e (restart s) h) l); auto.
+  intros e SR s h W l fs s' Wl NS U.
+  assert (R : reach e (run_f e (restart s) h)) by (apply reach_hist; auto using restart_reach).
+  apply (good_disk_ok e); auto. apply (update_good e fs (run_f e (restart s) h) l); auto.
 Qed.
 
 (* A concrete world (used to show that the hypotheses are satisfiable, and as the witness of
@@ -138,43 +138,40 @@ Proof.
 Qed.
 
 (* a decidable form of [ready], to build examples *)
-Definition ready_b (e : env) (dn : N) (c : config) : bool :=
-  (match b_def (c_b c), (if isSome (b_items (c_b c) dn) then Some dn else None) with
-   | Some a, Some b => a =? b | None, None => true | _, _ => false end) &&
+Definition ready_b (e : env) (c : config) : bool :=
   forallb (fun h => match h_items (c_h c) h with
                     | Some hc => match hroot hc with Some b => isSome (b_items (c_b c) b) | None => true end
                     | None => true end) (UH e).
-Lemma ready_b_sound : forall e dn c, dom e c -> ready_b e dn c = true -> ready dn c.
+Lemma ready_b_sound : forall e c, dom e c -> ready_b e c = true -> ready c.
 Proof.
-  intros e dn c [_ [Dh _]] H. unfold ready_b in H. apply andb_true_iff in H. destruct H as [H1 H2]. split.
-  - destruct (b_def (c_b c)) as [a|]; destruct (if isSome (b_items (c_b c) dn) then Some dn else None) as [b|];
-      try discriminate; auto. apply N.eqb_eq in H1. congruence.
-  - intros h hc b Hh Hr. assert (Ih : In h (UH e)) by (apply Dh; left; congruence).
-    rewrite forallb_forall in H2. specialize (H2 h Ih). rewrite Hh, Hr in H2. apply isSome_true. exact H2.
+  intros e c [_ [Dh _]] H2. unfold ready_b in H2.
+  intros h hc b Hh Hr. assert (Ih : In h (UH e)) by (apply Dh; left; congruence).
+  rewrite forallb_forall in H2. specialize (H2 h Ih). rewrite Hh, Hr in H2. apply isSome_true. exact H2.
 Qed.
+
 Ltac solve_in := repeat (apply Forall_cons; [cbn; auto 10|]); apply Forall_nil.
 Ltac solve_wf D :=
   split; [first [apply shape_full; reflexivity | apply shape_partial; reflexivity]|];
   split; [solve_in|];
   apply (ready_b_sound w_env); [apply dom_apply_ops; [solve_in|exact D]|vm_compute; reflexivity].
 
-Lemma w_wf1 : wf_batch w_env 7 (i_cfg inst_empty) w_full2.
+Lemma w_wf1 : wf_batch w_env (i_cfg inst_empty) w_full2.
 Proof. solve_wf (dom_empty w_env). Qed.
 Lemma w_dom_s1 : dom w_env (i_cfg w_s1).
 Proof.
-  assert (R : reach w_env 7 (fst (step_f w_env [] inst_empty w_full2))).
-  { exact (step_reach w_env 7 [] inst_empty w_full2 w_range (reach_empty w_env 7) w_wf1 eq_refl). }
+  assert (R : reach w_env (fst (step_f w_env [] inst_empty w_full2))).
+  { exact (step_reach w_env [] inst_empty w_full2 w_range (reach_empty w_env) w_wf1 eq_refl). }
   unfold w_s1. apply R.
 Qed.
-Lemma w_wf2 : wf_batch w_env 7 (i_cfg (restart w_s1)) w_full1.
+Lemma w_wf2 : wf_batch w_env (i_cfg (restart w_s1)) w_full1.
 Proof. solve_wf (dom_empty w_env). Qed.
-Lemma w_wf_part : wf_batch w_env 7 (i_cfg w_s1) w_part.
+Lemma w_wf_part : wf_batch w_env (i_cfg w_s1) w_part.
 Proof. solve_wf w_dom_s1. Qed.
 
 (* the hypotheses of the theorems are satisfiable: a full sync, then a partial sync that
    removes the only backend of shard 1, with or without faults *)
 Example wf_hist_example :
-  wf_hist w_env 7 inst_empty [(w_full2, [])] /\ wf_batch w_env 7 (i_cfg w_s1) w_part.
+  wf_hist w_env inst_empty [(w_full2, [])] /\ wf_batch w_env (i_cfg w_s1) w_part.
 Proof. exact (conj (conj w_wf1 (conj eq_refl I)) w_wf_part). Qed.
 
 (* the stale shard file of the witness is removed by the restarted instance *)
@@ -184,7 +181,7 @@ Proof.
   split; [|split].
   - assert (U : step_f w_env [] (restart w_s1) w_full1 = (w_s2, false)).
     { unfold w_s2. exact (step_nofault w_env (restart w_s1) w_full1). }
-    apply (restart_converges w_env 7 w_range w_s1 w_full1 [] w_s2 w_wf2 eq_refl U).
+    apply (restart_converges w_env w_range w_s1 w_full1 [] w_s2 w_wf2 eq_refl U).
   - vm_compute. reflexivity.
   - vm_compute. discriminate.
 Qed.
@@ -285,11 +282,10 @@ Proof.
   repeat split; cbn; auto; intros x; rewrite ?Mb, ?Mh, ?I, ?A, ?D, ?Hi, ?Ha, ?Hd; reflexivity.
 Qed.
 
-Lemma ready_ieq : forall dn c c', ieq c c' -> ready dn c -> ready dn c'.
+Lemma ready_ieq : forall c c', ieq c c' -> ready c -> ready c'.
 Proof.
-  intros dn c c' [I1 [I2 [I3 [I4 I5]]]] [R1 R2]. split.
-  - rewrite <- I2, <- I1. exact R1.
-  - intros h hc b Hh Hr. rewrite <- I1. apply (R2 h hc b); auto. rewrite I3. exact Hh.
+  intros c c' [I1 [I2 [I3 [I4 I5]]]] R2.
+  intros h hc b Hh Hr. rewrite <- I1. apply (R2 h hc b); auto. rewrite I3. exact Hh.
 Qed.
 
 (* what the model holds after an update does not depend on the faults *)
@@ -316,24 +312,24 @@ Qed.
 
 Definition erase (h : list (list op * list fpoint)) : list (list op * list fpoint) := map (fun st => (fst st, [])) h.
 
-Lemma wf_batch_ieq : forall e dn c c' l, clean c -> clean c' -> ieq c c' -> wf_batch e dn c l -> wf_batch e dn c' l.
+Lemma wf_batch_ieq : forall e c c' l, clean c -> clean c' -> ieq c c' -> wf_batch e c l -> wf_batch e c' l.
 Proof.
-  intros e dn c c' l C C' I [S [O R]]. split; auto. split; auto.
-  apply (ready_ieq dn (apply_ops e c l)); auto. apply ceq_ieq. apply ceq_apply_ops. apply ieq_clean_ceq; auto.
+  intros e c c' l C C' I [S [O R]]. split; auto. split; auto.
+  apply (ready_ieq (apply_ops e c l)); auto. apply ceq_ieq. apply ceq_apply_ops. apply ieq_clean_ceq; auto.
 Qed.
 
-Lemma erase_follows : forall e dn, shard_range e -> forall h s s', reach e dn s -> reach e dn s' ->
-  ieq (i_cfg s) (i_cfg s') -> wf_hist e dn s h ->
-  wf_hist e dn s' (erase h) /\ ieq (i_cfg (run_f e s h)) (i_cfg (run_f e s' (erase h))) /\
-  reach e dn (run_f e s h) /\ reach e dn (run_f e s' (erase h)).
+Lemma erase_follows : forall e, shard_range e -> forall h s s', reach e s -> reach e s' ->
+  ieq (i_cfg s) (i_cfg s') -> wf_hist e s h ->
+  wf_hist e s' (erase h) /\ ieq (i_cfg (run_f e s h)) (i_cfg (run_f e s' (erase h))) /\
+  reach e (run_f e s h) /\ reach e (run_f e s' (erase h)).
 Proof.
-  intros e dn SR. induction h as [|[l fs] h IH]; cbn [wf_hist erase map run_f fold_left fst snd]; intros s s' R R' I W.
+  intros e SR. induction h as [|[l fs] h IH]; cbn [wf_hist erase map run_f fold_left fst snd]; intros s s' R R' I W.
   - auto.
   - destruct W as [W1 [NS W2]].
     assert (C : clean (i_cfg s)) by apply R. assert (C' : clean (i_cfg s')) by apply R'.
-    assert (W1' : wf_batch e dn (i_cfg s') l) by (apply (wf_batch_ieq e dn (i_cfg s)); auto).
-    assert (R1 : reach e dn (fst (step_f e fs s l))) by (apply step_reach; auto).
-    assert (R1' : reach e dn (fst (step_f e [] s' l))) by (apply step_reach; auto).
+    assert (W1' : wf_batch e (i_cfg s') l) by (apply (wf_batch_ieq e (i_cfg s)); auto).
+    assert (R1 : reach e (fst (step_f e fs s l))) by (apply step_reach; auto).
+    assert (R1' : reach e (fst (step_f e [] s' l))) by (apply step_reach; auto).
     assert (I1 : ieq (i_cfg (fst (step_f e fs s l))) (i_cfg (fst (step_f e [] s' l)))) by (apply step_ieq; auto).
     destruct (IH _ _ R1 R1' I1 W2) as [A [B [Cc D]]]. fold (erase h) in *.
     split; [split; [auto|split; [reflexivity|auto]]|]. split; auto.
@@ -358,22 +354,22 @@ Qed.
 (* After the retry, the files (and the reloaded haproxy) of the execution that suffered the
    faults are exactly the state in which the execution without any fault is - whose own
    files are exactly that state too. *)
-Theorem retry_equals_fault_free : forall e dn, shard_range e ->
-  forall h, wf_hist e dn inst_empty h ->
-  forall l, wf_batch e dn (i_cfg (run_f e inst_empty h)) l ->
+Theorem retry_equals_fault_free : forall e, shard_range e ->
+  forall h, wf_hist e inst_empty h ->
+  forall l, wf_batch e (i_cfg (run_f e inst_empty h)) l ->
     let faulty := fst (step_f e [] (run_f e inst_empty h) l) in
     let faultfree := fst (step_f e [] (run_f e inst_empty (erase h)) l) in
     disk_ok e (i_cfg faultfree) (i_disk faulty) /\ disk_ok e (i_cfg faultfree) (i_disk faultfree) /\
     (inline e = true -> exists r, i_running faulty = Some r /\ disk_ok e (i_cfg faultfree) r).
 Proof.
-  intros e dn SR h W l Wl faulty faultfree.
+  intros e SR h W l Wl faulty faultfree.
   assert (I0 : ieq (i_cfg inst_empty) (i_cfg inst_empty)) by (repeat split; auto).
-  destruct (erase_follows e dn SR h inst_empty inst_empty (reach_empty e dn) (reach_empty e dn) I0 W) as [W' [I [R R']]].
+  destruct (erase_follows e SR h inst_empty inst_empty (reach_empty e) (reach_empty e) I0 W) as [W' [I [R R']]].
   assert (C : clean (i_cfg (run_f e inst_empty h))) by apply R.
   assert (C' : clean (i_cfg (run_f e inst_empty (erase h)))) by apply R'.
-  assert (Wl' : wf_batch e dn (i_cfg (run_f e inst_empty (erase h))) l) by (apply (wf_batch_ieq e dn (i_cfg (run_f e inst_empty h))); auto).
-  destruct (retry_converges e dn SR h W l Wl) as [_ [_ [D Rn]]].
-  destruct (retry_converges e dn SR (erase h) W' l Wl') as [_ [_ [D' _]]].
+  assert (Wl' : wf_batch e (i_cfg (run_f e inst_empty (erase h))) l) by (apply (wf_batch_ieq e (i_cfg (run_f e inst_empty h))); auto).
+  destruct (retry_converges e SR h W l Wl) as [_ [_ [D Rn]]].
+  destruct (retry_converges e SR (erase h) W' l Wl') as [_ [_ [D' _]]].
   assert (I1 : ieq (i_cfg faulty) (i_cfg faultfree)) by (apply step_ieq; auto).
   split; [apply (disk_ok_ieq e (i_cfg faulty)); auto|]. split; [exact D'|].
   intros Inl. destruct (Rn Inl) as [r [Hr Dr]]. exists r. split; auto. apply (disk_ok_ieq e (i_cfg faulty)); auto.
@@ -408,7 +404,7 @@ Proof.
   assert (P3 : forall c d, ph_backmaps e [FReloadSilent] c d = ph_backmaps e [] c d) by reflexivity.
   assert (P4 : forall c d, ph_tcpcrt e [FReloadSilent] c d = ph_tcpcrt e [] c d) by reflexivity.
   assert (P5 : forall cl c d, ph_config e [FReloadSilent] cl c d = ph_config e [] cl c d) by reflexivity.
-  unfold update_f. Time rewrite P1.
+  unfold update_f. rewrite P1.
   destruct (ph_tcpmaps e [] _ (i_disk s)) as [d1 e1]. destruct e1; [cbn; repeat split; reflexivity|].
   rewrite P2. destruct (ph_front e [] _ d1) as [[c2 d2] e2]. destruct e2; [cbn; repeat split; reflexivity|].
   rewrite P3. destruct (ph_backmaps e [] c2 d2) as [d3 e3]. destruct e3; [cbn; repeat split; reflexivity|].
@@ -419,45 +415,45 @@ Proof.
 Qed.
 
 (* the general shape of the refutation: from any good state, inline *)
-Lemma silent_drop_general : forall e dn s l, shard_range e -> inline e = true -> good e dn s -> wf_batch e dn (i_cfg s) l ->
+Lemma silent_drop_general : forall e s l, shard_range e -> inline e = true -> good e s -> wf_batch e (i_cfg s) l ->
   step_f e [FReloadSilent] s l = (fst (step_f e [FReloadSilent] s l), false) /\
   disk_ok e (i_cfg (fst (step_f e [FReloadSilent] s l))) (i_disk (fst (step_f e [FReloadSilent] s l))) /\
   i_cfg (fst (step_f e [FReloadSilent] s l)) = i_cfg (fst (step_f e [] s l)) /\
   exists r0, i_running (fst (step_f e [FReloadSilent] s l)) = Some r0 /\ disk_ok e (i_cfg s) r0.
 Proof.
-  intros e dn s l SR Inl G W.
+  intros e s l SR Inl G W.
   destruct (silent_same_files e (sync e s l)) as [Ec [Ed [Ee Er]]].
-  assert (G2 : good e dn (fst (step_f e [] s l))).
-  { exact (update_good e dn [] s l _ SR (good_reach e dn s G) W eq_refl (update_nofault_eq e s l)). }
+  assert (G2 : good e (fst (step_f e [] s l))).
+  { exact (update_good e [] s l _ SR (good_reach e s G) W eq_refl (update_nofault_eq e s l)). }
   unfold step_f in *. split; [|split; [|split]].
   - rewrite (surjective_pairing (update_f e [FReloadSilent] (sync e s l))) at 1. rewrite Ee, update_nofault_ok. reflexivity.
-  - rewrite Ec, Ed. apply (good_disk_ok e dn); auto.
+  - rewrite Ec, Ed. apply (good_disk_ok e); auto.
   - exact Ec.
-  - rewrite Er. cbn [sync i_running]. destruct (good_running_ok e dn s SR G Inl) as [r0 [H1 H2]]. exists r0. auto.
+  - rewrite Er. cbn [sync i_running]. destruct (good_running_ok e s SR G Inl) as [r0 [H1 H2]]. exists r0. auto.
 Qed.
 
 Theorem silent_reload_drop_refuted :
-  exists e dn h l fs s',
-    shard_range e /\ inline e = true /\ wf_hist e dn inst_empty h /\
-    wf_batch e dn (i_cfg (run_f e inst_empty h)) l /\
+  exists e h l fs s',
+    shard_range e /\ inline e = true /\ wf_hist e inst_empty h /\
+    wf_batch e (i_cfg (run_f e inst_empty h)) l /\
     step_f e fs (run_f e inst_empty h) l = (s', false) /\
     disk_ok e (i_cfg s') (i_disk s') /\
     forall r, i_running s' = Some r -> ~ disk_ok e (i_cfg s') r.
 Proof.
-  exists w_env_inline, 7, [(w_full2, [])], w_part, [FReloadSilent].
+  exists w_env_inline, [(w_full2, [])], w_part, [FReloadSilent].
   cbn [run_f fold_left fst snd].
   set (s1 := fst (step_f w_env_inline [] inst_empty w_full2)).
   exists (fst (step_f w_env_inline [FReloadSilent] s1 w_part)).
   assert (SR : shard_range w_env_inline) by (intros x _ _; cbn [sh nsh w_env_inline]; apply N.mod_lt; discriminate).
-  assert (W1 : wf_batch w_env_inline 7 (i_cfg inst_empty) w_full2).
+  assert (W1 : wf_batch w_env_inline (i_cfg inst_empty) w_full2).
   { split; [apply shape_full; reflexivity|]. split; [solve_in|].
     apply (ready_b_sound w_env_inline); [apply dom_apply_ops; [solve_in|apply dom_empty]|vm_compute; reflexivity]. }
-  assert (G1 : good w_env_inline 7 s1).
-  { exact (update_good w_env_inline 7 [] inst_empty w_full2 _ SR (reach_empty w_env_inline 7) W1 eq_refl (update_nofault_eq w_env_inline inst_empty w_full2)). }
-  assert (W2 : wf_batch w_env_inline 7 (i_cfg s1) w_part).
+  assert (G1 : good w_env_inline s1).
+  { exact (update_good w_env_inline [] inst_empty w_full2 _ SR (reach_empty w_env_inline) W1 eq_refl (update_nofault_eq w_env_inline inst_empty w_full2)). }
+  assert (W2 : wf_batch w_env_inline (i_cfg s1) w_part).
   { split; [apply shape_partial; reflexivity|]. split; [solve_in|].
     apply (ready_b_sound w_env_inline); [apply dom_apply_ops; [solve_in|apply G1]|vm_compute; reflexivity]. }
-  destruct (silent_drop_general w_env_inline 7 s1 w_part SR eq_refl G1 W2) as [U [D [Ec [r0 [Hr0 D0]]]]].
+  destruct (silent_drop_general w_env_inline s1 w_part SR eq_refl G1 W2) as [U [D [Ec [r0 [Hr0 D0]]]]].
   split; [exact SR|]. split; [reflexivity|].
   split; [cbn [wf_hist fst snd]; split; [exact W1|split; [reflexivity|exact I]]|].
   split; [exact W2|]. split; [exact U|]. split; [exact D|].
